@@ -14,14 +14,16 @@ RpDursU == {0, 2, 4, 16}
 
 Export == (Len(hist) = Depth) => PrintT(<<"TRACE", ToJson(hist)>>)
 
-\* simulation: a few random commands per step instead of all of them. A command type is drawn first (so
-\* that rare types are exercised as often as types with many argument tuples); three times out of four
-\* the command is drawn among those of that type that succeed and change the catalogue, if any.
-\* (parameterised by the state so that TLC does not cache the choice as a constant)
+\* simulation: a few random commands per step instead of all of them. Four times out of five a command
+\* type is drawn among the types that currently have a command that succeeds and changes the catalogue
+\* (so that rare types are exercised as often as types with many argument tuples) and then such a command
+\* of that type; otherwise any command of any type (mostly invalid arguments).
+\* (parameterised by the state so that TLC does not cache the choices as constants)
 Effective(c, S) == {x \in S : \E r \in {Ap(c, x, Dev)} : r.r = "ok" /\ r.c # c}
-SimPick(c, j) ==
-  LET S == CmdsOf(RandomElement(Ops \ {"Snapshot"}), c)
-      G == IF RandomElement(1..4) > 1 THEN Effective(c, S) ELSE {}
-  IN IF S = {} THEN {} ELSE {RandomElement(IF G = {} THEN S ELSE G)}
-SimCmds == UNION {SimPick(cat, j) : j \in 1..3}
+SimPick(c, E, j) ==
+  IF E # {} /\ RandomElement(1..5) > 1
+  THEN LET op == RandomElement({x.op : x \in E}) IN RandomElement({x \in E : x.op = op})
+  ELSE RandomElement(CmdsOf(RandomElement(Ops \ {"Snapshot", "UpdateReplication"}), c))
+SimCmds == UNION {{SimPick(cat, E, j) : j \in 1..3} : E \in {Effective(cat, AllCmds(cat))}}
+SimSnapGate == RandomElement(1..6) = 1 /\ (cat.maxMst > 0 \/ RandomElement(1..4) = 1)
 =============================================================================
